@@ -26,7 +26,7 @@ def expected_params(script, info):
     return sorted(names)
 
 
-def check_template(script, info, vals, arrays):
+def check_template(script, info, vals, arrays, shared=None):
     text = gen.render(script)
     sigma, arr = subst_maps(vals, arrays)
     subst_text = gen.render(gen.subst_script(script, sigma, arr))
@@ -40,7 +40,9 @@ def check_template(script, info, vals, arrays):
         return "is_template() is %s with parameters %s" % (obj.is_template(), want), text, subst_text
     kwargs = dict(vals)
     kwargs.update(arrays)
-    msg = oracles.o_template_call(text, kwargs, subst_text)
+    msg = oracles.o_template_call(text, kwargs, subst_text, shared=shared)
+    if msg and shared is not None:
+        msg = "(same template object instantiated again) " + msg
     if msg:
         return msg, text, subst_text
     # a missing value is refused with ValueError
@@ -125,7 +127,8 @@ def run(ctx):
     ctx.rule = ("random template scripts with {name} parameters in positional and keyword arguments, scalar "
                 "initialisers, bare {p} array elements at arbitrary positions, whole arrays with declared shape and "
                 "loop bodies; 3 (quick) / 5 (thorough) value assignments each (exact-friendly dyadic and generic "
-                "doubles); oracle: loads(t)(**v) vs loads(t with every {p} replaced by its parenthesised value), "
+                "doubles), the later ones applied to one and the same loaded template object that was already instantiated; "
+                "oracle: loads(t)(**v) vs loads(t with every {p} replaced by its parenthesised value), "
                 "parameters / is_template / missing value; model instantiate vs __call__; non-trivial = at least two "
                 "parameter occurrences; distinct by (script text, values)")
     n = ctx.n(250, 4000)
@@ -138,6 +141,8 @@ def run(ctx):
         texts.append(text)
         for k in ("params", "array_params"):
             ctx.count("%s:%d" % (k, len(info[k])))
+        # the same loaded template object is instantiated for every assignment after the first
+        shared = None
         for r in range(reps):
             for _try in range(20):
                 vals, arrays = gen.gen_param_values(ctx.rng, info, exact_friendly=(r % 2 == 0))
@@ -146,7 +151,16 @@ def run(ctx):
             else:
                 ctx.count("no-values-in-domain")
                 continue
-            msg, text, subst_text = check_template(script, info, vals, arrays)
+            msg, text, subst_text = check_template(script, info, vals, arrays, shared=shared)
+            if shared is None:
+                r0 = core.impl_loads(text)
+                shared = r0[1] if r0[0] == "ok" else None
+                if shared is not None:
+                    with core.quiet():
+                        try:
+                            shared(**{k: (np.array(v) if isinstance(v, list) else v) for k, v in dict(vals, **arrays).items()})
+                        except Exception:  # noqa: BLE001
+                            shared = None
             occurrences = text.count("{")
             ctx.case((text, sorted(vals.items()), repr(arrays)), nontrivial=occurrences >= 2)
             if r == 0:
